@@ -8,9 +8,9 @@ Require Import ZV.gen.KernelGen ZV.Kernel ZV.Bytes.
 Import ListNotations.
 Open Scope N_scope.
 Ltac Zify.zify_post_hook ::= Z.div_mod_to_equations.
-Ltac trefl := timeout 30 reflexivity.
-Ltac tlia := timeout 60 lia.
-Ltac tnia := timeout 60 nia.
+Ltac trefl := timeout 240 reflexivity.
+Ltac tlia := timeout 240 lia.
+Ltac tnia := timeout 240 nia.
 
 (* the order in which persistFooter writes the footer and the positions loadConfig reads it from are
    those of the frozen v16 layout: numDocs, storedIndexOffset, fieldsIndexOffset, sectionsIndexOffset,
@@ -24,5 +24,5 @@ Fixpoint positions_from_end (total : N) (fs : list (N * N)) : list (N * N * N * 
 Lemma tie_footer_order :
   go_footer_write_order = map (fun f => (fst f, snd f, 0)) v16_footer_fields /\
   go_footer_read_layout = positions_from_end 52 v16_footer_fields.
-Proof. timeout 30 (split; reflexivity). Qed.
+Proof. timeout 240 (split; reflexivity). Qed.
 Print Assumptions tie_footer_order.
